@@ -151,11 +151,22 @@ class Mir:
         self.fns, self.consts, self.closures, self.inline_consts = {}, {}, {}, {}
         self.dups = {}
         for m in re.finditer(r'^fn ([^\n]*?)\((.*?)\) -> ([^\n]*?) \{\n(.*?)^\}', txt, re.S | re.M):
-            name = m.group(1)
-            plist = [p for p in split_top(m.group(2), ',') if p.strip()]
+            name = m.group(1); pstr_, ret = m.group(2), m.group(3)
+            if pstr_.count('(') != pstr_.count(')'):
+                # a parameter type with its own `) -> ` (impl Fn(&T) -> U): take the parameter list up to the balancing parenthesis
+                line = txt[m.start():txt.index('\n', m.start())]
+                a = line.index('(', 3 + len(name)); depth = 0; b = None
+                for i in range(a, len(line)):
+                    if line[i] == '(': depth += 1
+                    elif line[i] == ')':
+                        depth -= 1
+                        if depth == 0: b = i; break
+                if b is not None and line[b:b + 5] == ') -> ' and line.endswith(' {'):
+                    pstr_, ret = line[a + 1:b], line[b + 5:-2]
+            plist = [p for p in split_top(pstr_, ',') if p.strip()]
             params = [p.split(':')[0].strip() for p in plist]
             ptypes = [p.split(':', 1)[1].strip() for p in plist]
-            f = Fn(name, params, ptypes, m.group(3), m.group(4))
+            f = Fn(name, params, ptypes, ret, m.group(4))
             if name in self.fns: self.dups.setdefault(name, [self.fns[name]]).append(f)
             else: self.fns[name] = f
             if re.search(r'\{closure#\d+\}$', name) and ptypes:
